@@ -10,7 +10,7 @@ import time
 import traceback
 
 VERIF = os.path.dirname(os.path.dirname(os.path.abspath(__file__)))
-REPO = "/repo"
+REPO = os.environ.get("VF_REPO") or "/repo"  # VF_REPO: run against a scratch worktree (seeded-change evaluation); default = /repo itself
 SEED = int(os.environ.get("VERIF_SEED", "0") or 0)
 VERBOSE = bool(os.environ.get("VF_VERBOSE"))
 NPROC = int(os.environ.get("VERIF_NPROC", "0") or 0) or min(16, os.cpu_count() or 4)
@@ -251,8 +251,11 @@ def source_hashes(files):
     return out
 
 
+OUTDIR = os.environ.get("VF_OUT") or VERIF  # VF_OUT: redirect evidence / replays when evaluating a scratch worktree
+
+
 def write_replay(prop, key, payload):
-    d = os.path.join(VERIF, "replays", prop)
+    d = os.path.join(OUTDIR, "replays", prop)
     os.makedirs(d, exist_ok=True)
     h = hashlib.sha256(key.encode()).hexdigest()[:12]
     p = os.path.join(d, "%s.json" % h)
@@ -263,7 +266,7 @@ def write_replay(prop, key, payload):
 
 
 def write_evidence(prop, tier, level, coverage, assumptions, wall, violations, extra=None):
-    d = os.path.join(VERIF, "evidence")
+    d = os.path.join(OUTDIR, "evidence")
     os.makedirs(d, exist_ok=True)
     ev = {"property_id": prop, "tier": tier, "seed": SEED, "level": level, "coverage": coverage, "assumptions": assumptions,
           "wall_s": round(wall, 2), "violations": violations}
